@@ -53,12 +53,14 @@ theorem arrival_records_pending (P : Params) (h bo : Nat) (e : TxEntry) (s s' : 
           insertLookup { hash := e.hash, txIndex := idx, addr := t.inAddr }
           if t.isConversion P then
             insertHistTx { hash := e.hash, txIndex := idx, action := 2, fromAddr := t.inAddr, fromAsset := tickerName P t.inType,
-                           fromAmount := t.inAmount, toAsset := tickerName P t.conversion, toAmount := 0, outputs := "" }
+                           fromAmount := t.inAmount, toAsset := tickerName P t.conversion, toAmount := 0, outputs := "",
+                           fromT := t.inType, toT := t.conversion }
           else do
             M.forEach t.transfers fun tr => insertLookup { hash := e.hash, txIndex := idx, addr := tr.addr }
             insertHistTx { hash := e.hash, txIndex := idx, action := 1, fromAddr := t.inAddr, fromAsset := tickerName P t.inType,
                            fromAmount := t.inAmount, toAsset := "", toAmount := 0,
-                           outputs := renderOutputs (t.transfers.map fun tr => (tr.addr, (tr.amount : Int))) }) := by
+                           outputs := renderOutputs (t.transfers.map fun tr => (tr.addr, (tr.amount : Int))),
+                           fromT := t.inType, outs := t.transfers.map fun tr => (tr.addr, tr.amount) }) := by
         have p6 : ∀ r, Step (keepRel (·.histB)) (insertLookup r) :=
           fun r => Step.guarded (fun s => by simp only [keepRel]; split <;> rfl)
         have p5 : ∀ r, Step (keepRel (·.histB)) (insertHistTx r) := fun r => Step.guarded (fun s => rfl)
